@@ -15,7 +15,7 @@ ENV.update({"GOFLAGS": "-mod=mod", "GOPROXY": "off", "GOSUMDB": "off", "GOTOOLCH
 
 KERNEL_TB = [
     "Coq 8.16.1 kernel incl. vm_compute conversion (no native_compute)",
-    "gen/ table extractor (go/ast) printing coq/Gen/Tables.v from /repo on every run",
+    "gen/ table extractor (go/ast) printing coq/Gen/Tables.v from /repo on every run, and gen/trans.go (go/types) translating crc16, hashtag, parseCursor, genCursor into coq/Gen/Funcs.v (fragment and its semantics in the file's header: unsigned arithmetic wrapped to its width, int unbounded, run-time panics not modelled)",
     "extraction: ExtrOcamlBasic only (no Extract Constant; N/Z/nat/positive kept inductive), OCaml 4.13.1, run/driver.ml I/O glue",
     "Go harness (generators, canonical printers, comparators) and the verif-tagged export wrappers in /repo",
     "hand-written Gallina model in coq/Model (tied to the code by the correspondence run, not by translation)",
@@ -68,7 +68,9 @@ def regenerate_tables():
     rc, out = sh([os.path.join(BIN, "gen"), REPO, os.path.join(COQ, "Gen", "Tables.v")], timeout=120)
     if rc != 0:
         raise Broken("table-extractor", out)
-    return hashlib.sha256(open(os.path.join(COQ, "Gen", "Tables.v"), "rb").read()).hexdigest()
+    h = hashlib.sha256(open(os.path.join(COQ, "Gen", "Tables.v"), "rb").read())
+    h.update(open(os.path.join(COQ, "Gen", "Funcs.v"), "rb").read())   # the translated functions (gen/trans.go)
+    return h.hexdigest()
 
 
 def coq_makefile():
